@@ -109,9 +109,10 @@ def install():
     _real["Thread"] = threading.Thread
 
     def Lock():
-        if _sim() is not None:
-            _count("threading.Lock")
-            return _sched.SimLock()
+        if _in_repo(2):
+            if _sched.current_sched() is not None:
+                _count("threading.Lock")
+            return _sched.HybridLock(_real["Lock"])
         return _real["Lock"]()
 
     threading.Lock = Lock
